@@ -82,10 +82,13 @@ def main():
         sh('cargo build --release --offline', cwd=wt)
         rc1, o1 = sh(runner, cwd=wt)
         meta['confirmed']['demo_with_change_rc'] = rc1; meta['confirmed']['demo_with_change_tail'] = o1[-600:]
-        sh('git stash', cwd=wt)
+        # (git stash is shared by all worktrees of a repository: never use it here)
+        tmpp = f'/tmp/seedpatch-{sid}.diff'
+        rcd, od = sh('git diff HEAD -- src build.rs Cargo.toml', cwd=wt); open(tmpp, 'w').write(od)
+        sh(f'git apply -R {tmpp}', cwd=wt)
         sh('cargo build --release --offline', cwd=wt)
         rc2, o2 = sh(runner, cwd=wt)
-        sh('git stash pop', cwd=wt)
+        sh(f'git apply {tmpp}', cwd=wt); os.remove(tmpp)
         meta['confirmed']['demo_without_change_rc'] = rc2; meta['confirmed']['demo_without_change_tail'] = o2[-300:]
     # 2. store
     for f in os.listdir(mdir):
